@@ -172,3 +172,11 @@ pub fn tape_hash(tape: &[u32]) -> u64 {
 	}
 	h
 }
+
+/// Tape value that makes `Src::below(n)` return exactly `v` (for enumerated tapes; n <= 2^32).
+pub fn enc(v: u64, n: u64) -> u32 {
+	debug_assert!(v < n && n <= (1 << 32));
+	let raw = ((v << 32) + n - 1) / n;
+	debug_assert_eq!((raw * n) >> 32, v);
+	raw as u32
+}
